@@ -72,7 +72,7 @@ pub fn depth1(ctx: &mut Ctx, pool: &Pool, judge: &mut dyn FnMut(&mut Ctx, Case))
         if !ctx.mine() {
             continue;
         }
-        let e = Expr::iif(Expr::value(v.clone()), Expr::value(1), Expr::value(2));
+        let e = Expr::iif(v.clone(), Expr::value(1), Expr::value(2)); // `impl Into<Expr>`: exercises From<Value> for Expr
         judge(ctx, Case { expr: &e, facts: &none, cell: format!("if({})", ty(v)), family: "depth1-if" });
     }
     // index steps
